@@ -50,8 +50,12 @@ func (c *VC) ghostBuiltin(st *State, name string, call *ast.CallExpr) []*Term {
 		t := c.evalCond(st, call.Args[0])
 		st.pc = mkAnd(st.pc, t)
 		return nil
-	case "ensures", "assert":
+	case "ensures", "assert", "ensuresGoal":
 		if run != nil {
+			if name == "ensuresGoal" && run.asCallee {
+				// goal clauses are proved (or recorded as findings) on the function itself and are never assumed by callers
+				return nil
+			}
 			if run.phase == 2 {
 				t := c.evalCond(st, call.Args[0])
 				run.onEns(text, call.Pos(), st, t)
@@ -60,7 +64,7 @@ func (c *VC) ghostBuiltin(st *State, name string, call *ast.CallExpr) []*Term {
 		}
 		t := c.evalCond(st, call.Args[0])
 		kind := "assert"
-		if name == "ensures" {
+		if name != "assert" {
 			kind = "ensures"
 		}
 		c.addObl(kind, text, call.Pos(), st.pc, t)
@@ -374,7 +378,7 @@ func (c *VC) callByContract(st *State, fi *FuncInfo, args []*Term, call *ast.Cal
 		post.env[r] = v
 		res = append(res, v)
 	}
-	run2 := &contractRun{phase: 2, old: pre}
+	run2 := &contractRun{phase: 2, old: pre, asCallee: true}
 	run2.onEns = func(text string, pos token.Pos, g *State, t *Term) {
 		if os.Getenv("GOVC_DEBUG") != "" {
 			fmt.Fprintf(os.Stderr, "DEBUG callee-ensures %s: %s => %s\n", fi.Name, text, trunc(t.String(), 200))
@@ -403,7 +407,7 @@ func (c *VC) callLemma(st *State, L *FuncInfo, args []*Term, call *ast.CallExpr)
 		c.addObl("lemma-pre", ctext+": "+text, call.Pos(), g.pc, t)
 	}
 	c.runContract(pre, L, run)
-	run2 := &contractRun{phase: 2, old: pre}
+	run2 := &contractRun{phase: 2, old: pre, asCallee: true}
 	run2.onEns = func(text string, pos token.Pos, g *State, t *Term) {
 		c.addFact(g.pc, t)
 	}
